@@ -1,5 +1,5 @@
 use crate::util::*;
-use s3s::dto::Range;
+use s3s::dto::{CopySource, Range, Timestamp, TimestampFormat};
 use serde_json::{Value, json};
 
 fn show_range(r: &Range) -> String {
@@ -15,6 +15,14 @@ fn range_of(v: &Value) -> Range {
         "int" => Range::Int { first: u64_of(&v["first"]), last: if v["last"].is_null() { None } else { Some(u64_of(&v["last"])) } },
         "suffix" => Range::Suffix { length: u64_of(&v["len"]) },
         _ => panic!("range kind"),
+    }
+}
+
+fn ts_fmt(s: &str) -> TimestampFormat {
+    match s {
+        "DateTime" => TimestampFormat::DateTime,
+        "HttpDate" => TimestampFormat::HttpDate,
+        _ => TimestampFormat::EpochSeconds,
     }
 }
 
@@ -43,6 +51,71 @@ pub fn run(case: &Value) -> Value {
         "range_print" => {
             let r = range_of(&case["r"]);
             json!({"out": r.to_header_string()})
+        }
+        "ts_parse" => {
+            let fmt = ts_fmt(case["fmt"].as_str().unwrap());
+            let out = match std::str::from_utf8(&hex(&case["s"])) {
+                Ok(s) => match Timestamp::parse(fmt, s) {
+                    Ok(t) => time::OffsetDateTime::from(t).unix_timestamp_nanos().to_string(),
+                    Err(_) => "err".to_string(),
+                },
+                Err(_) => "err".to_string(),
+            };
+            json!({"out": out})
+        }
+        "ts_format" => {
+            let fmt = ts_fmt(case["fmt"].as_str().unwrap());
+            let nanos: i128 = case["nanos"].as_str().unwrap().parse().unwrap();
+            let off = i32::try_from(i64_of(&case["offset"])).unwrap();
+            let t = time::OffsetDateTime::from_unix_timestamp_nanos(nanos)
+                .unwrap()
+                .to_offset(time::UtcOffset::from_whole_seconds(off).unwrap());
+            let ts = Timestamp::from(t);
+            let mut buf = Vec::new();
+            let out = match ts.format(fmt, &mut buf) {
+                Ok(()) => String::from_utf8(buf).unwrap(),
+                Err(_) => "err".to_string(),
+            };
+            json!({"out": out})
+        }
+        "copy_parse" => {
+            let out = match std::str::from_utf8(&hex(&case["s"])) {
+                Ok(s) => match CopySource::parse(s) {
+                    Ok(CopySource::Bucket { bucket, key, version_id }) => format!(
+                        "ok:{}|{}|{}",
+                        to_hex(bucket.as_bytes()),
+                        to_hex(key.as_bytes()),
+                        version_id.map_or("-".to_string(), |v| to_hex(v.as_bytes()))
+                    ),
+                    Ok(CopySource::AccessPoint { .. }) => "ok:accesspoint".to_string(),
+                    Err(e) => format!("err:{}", format!("{e:?}")),
+                },
+                Err(_) => "err:InvalidEncoding".to_string(),
+            };
+            json!({"out": out})
+        }
+        "copy_format" => {
+            let s = |k: &str| String::from_utf8(hex(&case[k])).unwrap();
+            let v = CopySource::Bucket {
+                bucket: s("bucket").into(),
+                key: s("key").into(),
+                version_id: if case["version"].is_null() { None } else { Some(s("version").into()) },
+            };
+            json!({"out": to_hex(v.format_to_string().as_bytes())})
+        }
+        "mime" => {
+            let out = match std::str::from_utf8(&hex(&case["s"])) {
+                Ok(s) => match s.parse::<mime::Mime>() {
+                    Ok(m) => {
+                        let text = m.to_string();
+                        let again = text.parse::<mime::Mime>().map(|m2| m2 == m).unwrap_or(false);
+                        format!("ok:{}:{}", to_hex(text.as_bytes()), again)
+                    }
+                    Err(_) => "err".to_string(),
+                },
+                Err(_) => "err".to_string(),
+            };
+            json!({"out": out})
         }
         op => panic!("unknown op {op}"),
     }
